@@ -244,3 +244,201 @@ var structMakers = []func(a int) any{
 	},
 	func(a int) any { return &T23{A23: a + 23, Name: "n23", List: []int{a, 23}, F: 0.5} },
 }
+
+// Types whose nested struct types are reachable only through containers of pointers ([]*T, map[string]*T,
+// [2]*T; **T is not supported by the recomposer at all). Only the top-level types are registered beforehand.
+
+type N00A struct {
+	V int
+	S string
+}
+
+type N00B struct {
+	V0 int
+}
+
+type N00C struct {
+	F float64
+}
+
+type N00 struct {
+	Kids   []*N00A
+	ByName map[string]*N00B
+	Arr    [2]*N00C
+	N      int
+}
+
+type N01A struct {
+	V int
+	S string
+}
+
+type N01B struct {
+	V1 int
+}
+
+type N01C struct {
+	F float64
+}
+
+type N01 struct {
+	Kids   []*N01A
+	ByName map[string]*N01B
+	Arr    [2]*N01C
+	N      int
+}
+
+type N02A struct {
+	V int
+	S string
+}
+
+type N02B struct {
+	V2 int
+}
+
+type N02C struct {
+	F float64
+}
+
+type N02 struct {
+	Kids   []*N02A
+	ByName map[string]*N02B
+	Arr    [2]*N02C
+	N      int
+}
+
+type N03A struct {
+	V int
+	S string
+}
+
+type N03B struct {
+	V3 int
+}
+
+type N03C struct {
+	F float64
+}
+
+type N03 struct {
+	Kids   []*N03A
+	ByName map[string]*N03B
+	Arr    [2]*N03C
+	N      int
+}
+
+type N04A struct {
+	V int
+	S string
+}
+
+type N04B struct {
+	V4 int
+}
+
+type N04C struct {
+	F float64
+}
+
+type N04 struct {
+	Kids   []*N04A
+	ByName map[string]*N04B
+	Arr    [2]*N04C
+	N      int
+}
+
+type N05A struct {
+	V int
+	S string
+}
+
+type N05B struct {
+	V5 int
+}
+
+type N05C struct {
+	F float64
+}
+
+type N05 struct {
+	Kids   []*N05A
+	ByName map[string]*N05B
+	Arr    [2]*N05C
+	N      int
+}
+
+type N06A struct {
+	V int
+	S string
+}
+
+type N06B struct {
+	V6 int
+}
+
+type N06C struct {
+	F float64
+}
+
+type N06 struct {
+	Kids   []*N06A
+	ByName map[string]*N06B
+	Arr    [2]*N06C
+	N      int
+}
+
+type N07A struct {
+	V int
+	S string
+}
+
+type N07B struct {
+	V7 int
+}
+
+type N07C struct {
+	F float64
+}
+
+type N07 struct {
+	Kids   []*N07A
+	ByName map[string]*N07B
+	Arr    [2]*N07C
+	N      int
+}
+
+var nestedMakers = []func(a int) any{
+	func(a int) any {
+		c := &N00C{F: float64(a) + 0.25}
+		return &N00{Kids: []*N00A{{V: a, S: "s0"}, {V: a + 0}}, ByName: map[string]*N00B{"k": {V0: a}, "m": {V0: 0}}, Arr: [2]*N00C{c, nil}, N: a}
+	},
+	func(a int) any {
+		c := &N01C{F: float64(a) + 0.25}
+		return &N01{Kids: []*N01A{{V: a, S: "s1"}, {V: a + 1}}, ByName: map[string]*N01B{"k": {V1: a}, "m": {V1: 1}}, Arr: [2]*N01C{c, nil}, N: a}
+	},
+	func(a int) any {
+		c := &N02C{F: float64(a) + 0.25}
+		return &N02{Kids: []*N02A{{V: a, S: "s2"}, {V: a + 2}}, ByName: map[string]*N02B{"k": {V2: a}, "m": {V2: 2}}, Arr: [2]*N02C{c, nil}, N: a}
+	},
+	func(a int) any {
+		c := &N03C{F: float64(a) + 0.25}
+		return &N03{Kids: []*N03A{{V: a, S: "s3"}, {V: a + 3}}, ByName: map[string]*N03B{"k": {V3: a}, "m": {V3: 3}}, Arr: [2]*N03C{c, nil}, N: a}
+	},
+	func(a int) any {
+		c := &N04C{F: float64(a) + 0.25}
+		return &N04{Kids: []*N04A{{V: a, S: "s4"}, {V: a + 4}}, ByName: map[string]*N04B{"k": {V4: a}, "m": {V4: 4}}, Arr: [2]*N04C{c, nil}, N: a}
+	},
+	func(a int) any {
+		c := &N05C{F: float64(a) + 0.25}
+		return &N05{Kids: []*N05A{{V: a, S: "s5"}, {V: a + 5}}, ByName: map[string]*N05B{"k": {V5: a}, "m": {V5: 5}}, Arr: [2]*N05C{c, nil}, N: a}
+	},
+	func(a int) any {
+		c := &N06C{F: float64(a) + 0.25}
+		return &N06{Kids: []*N06A{{V: a, S: "s6"}, {V: a + 6}}, ByName: map[string]*N06B{"k": {V6: a}, "m": {V6: 6}}, Arr: [2]*N06C{c, nil}, N: a}
+	},
+	func(a int) any {
+		c := &N07C{F: float64(a) + 0.25}
+		return &N07{Kids: []*N07A{{V: a, S: "s7"}, {V: a + 7}}, ByName: map[string]*N07B{"k": {V7: a}, "m": {V7: 7}}, Arr: [2]*N07C{c, nil}, N: a}
+	},
+}
